@@ -174,67 +174,73 @@ end
 /-! ### `fromCty` inverts `toCty` (no pointers) -/
 
 mutual
-theorem fromCty_toCty : ∀ (t : GTy) (v : GVal) (c : Val), noPtr t = true → toCty t v = some c →
+theorem fromCty_toCty : ∀ (t : GTy) (v : GVal) (c : Val), noPtr t = true → hasTy t v = true → toCty t v = some c →
     fromCty t c = some v
-  | .str, .str s, c, _, h => by
+  | .str, .str s, c, _, _, h => by
     simp only [toCty, Option.some.injEq] at h; subst h; simp [fromCty]
-  | .int, .int n, c, _, h => by
+  | .int, .int n, c, _, ht, h => by
+    simp only [toCty, Option.some.injEq] at h; subst h
+    simp only [hasTy, decide_eq_true_eq] at ht
+    simp [fromCty, ht]
+  | .bool, .bool b, c, _, _, h => by
     simp only [toCty, Option.some.injEq] at h; subst h; simp [fromCty]
-  | .bool, .bool b, c, _, h => by
+  | .slice t, .slice none, c, _, _, h => by
     simp only [toCty, Option.some.injEq] at h; subst h; simp [fromCty]
-  | .slice t, .slice none, c, _, h => by
-    simp only [toCty, Option.some.injEq] at h; subst h; simp [fromCty]
-  | .slice t, .slice (some xs), c, hp, h => by
+  | .slice t, .slice (some xs), c, hp, ht, h => by
     simp only [toCty, Option.map_eq_some_iff] at h
     obtain ⟨vs, hvs, rfl⟩ := h
     simp only [noPtr] at hp
-    simp [fromCty, fromCtyList_toCtyList t xs vs hp hvs]
-  | .map t, .map none, c, _, h => by
+    simp only [hasTy] at ht
+    simp [fromCty, fromCtyList_toCtyList t xs vs hp ht hvs]
+  | .map t, .map none, c, _, _, h => by
     simp only [toCty, Option.some.injEq] at h; subst h; simp [fromCty]
-  | .map t, .map (some kvs), c, hp, h => by
+  | .map t, .map (some kvs), c, hp, ht, h => by
     simp only [toCty, Option.map_eq_some_iff] at h
     obtain ⟨vs, hvs, rfl⟩ := h
     simp only [noPtr] at hp
-    simp [fromCty, fromCtyFields_toCtyFields t kvs vs hp hvs]
-  | .ptr _, _, _, hp, _ => by simp [noPtr] at hp
-  | .str, .int _, _, _, h | .str, .bool _, _, _, h | .str, .slice _, _, _, h | .str, .map _, _, _, h
-  | .str, .ptr _, _, _, h
-  | .int, .str _, _, _, h | .int, .bool _, _, _, h | .int, .slice _, _, _, h | .int, .map _, _, _, h
-  | .int, .ptr _, _, _, h
-  | .bool, .str _, _, _, h | .bool, .int _, _, _, h | .bool, .slice _, _, _, h | .bool, .map _, _, _, h
-  | .bool, .ptr _, _, _, h
-  | .slice _, .str _, _, _, h | .slice _, .int _, _, _, h | .slice _, .bool _, _, _, h | .slice _, .map _, _, _, h
-  | .slice _, .ptr _, _, _, h
-  | .map _, .str _, _, _, h | .map _, .int _, _, _, h | .map _, .bool _, _, _, h | .map _, .slice _, _, _, h
-  | .map _, .ptr _, _, _, h => by
+    simp only [hasTy, Bool.and_eq_true] at ht
+    simp [fromCty, fromCtyFields_toCtyFields t kvs vs hp ht.1 hvs]
+  | .ptr _, _, _, hp, _, _ => by simp [noPtr] at hp
+  | .str, .int _, _, _, _, h | .str, .bool _, _, _, _, h | .str, .slice _, _, _, _, h | .str, .map _, _, _, _, h
+  | .str, .ptr _, _, _, _, h
+  | .int, .str _, _, _, _, h | .int, .bool _, _, _, _, h | .int, .slice _, _, _, _, h | .int, .map _, _, _, _, h
+  | .int, .ptr _, _, _, _, h
+  | .bool, .str _, _, _, _, h | .bool, .int _, _, _, _, h | .bool, .slice _, _, _, _, h | .bool, .map _, _, _, _, h
+  | .bool, .ptr _, _, _, _, h
+  | .slice _, .str _, _, _, _, h | .slice _, .int _, _, _, _, h | .slice _, .bool _, _, _, _, h
+  | .slice _, .map _, _, _, _, h | .slice _, .ptr _, _, _, _, h
+  | .map _, .str _, _, _, _, h | .map _, .int _, _, _, _, h | .map _, .bool _, _, _, _, h
+  | .map _, .slice _, _, _, _, h | .map _, .ptr _, _, _, _, h => by
     simp [toCty] at h
 theorem fromCtyList_toCtyList : ∀ (t : GTy) (xs : List GVal) (vs : List Val), noPtr t = true →
-    toCtyList t xs = some vs → fromCtyList t vs = some xs
-  | _, [], vs, _, h => by
+    hasTyList t xs = true → toCtyList t xs = some vs → fromCtyList t vs = some xs
+  | _, [], vs, _, _, h => by
     simp only [toCtyList, Option.some.injEq] at h; subst h; simp [fromCtyList]
-  | t, x :: rest, vs, hp, h => by
+  | t, x :: rest, vs, hp, ht, h => by
     simp only [toCtyList] at h
+    simp only [hasTyList, Bool.and_eq_true] at ht
     split at h
     · rename_i v vs' hv hvs
       simp only [Option.some.injEq] at h; subst h
-      simp [fromCtyList, fromCty_toCty t x v hp hv, fromCtyList_toCtyList t rest vs' hp hvs]
+      simp [fromCtyList, fromCty_toCty t x v hp ht.1 hv, fromCtyList_toCtyList t rest vs' hp ht.2 hvs]
     · simp at h
 theorem fromCtyFields_toCtyFields : ∀ (t : GTy) (kvs : List (String × GVal)) (vs : List (String × Val)),
-    noPtr t = true → toCtyFields t kvs = some vs → fromCtyFields t vs = some kvs
-  | _, [], vs, _, h => by
+    noPtr t = true → hasTyFields t kvs = true → toCtyFields t kvs = some vs → fromCtyFields t vs = some kvs
+  | _, [], vs, _, _, h => by
     simp only [toCtyFields, Option.some.injEq] at h; subst h; simp [fromCtyFields]
-  | t, (k, x) :: rest, vs, hp, h => by
+  | t, (k, x) :: rest, vs, hp, ht, h => by
     simp only [toCtyFields] at h
+    simp only [hasTyFields, Bool.and_eq_true] at ht
     split at h
     · rename_i v vs' hv hvs
       simp only [Option.some.injEq] at h; subst h
-      simp [fromCtyFields, fromCty_toCty t x v hp hv, fromCtyFields_toCtyFields t rest vs' hp hvs]
+      simp [fromCtyFields, fromCty_toCty t x v hp ht.1 hv, fromCtyFields_toCtyFields t rest vs' hp ht.2 hvs]
     · simp at h
 end
 
-/-- `Props/C16.lean`, `attr_roundtrip` (well-typedness is not needed) -/
-theorem attr_roundtrip (t : GTy) (v : GVal) (c : Val) (hp : noPtr t = true) (hc : toCty t v = some c) :
-    decodeExpr t (reparse c) = some v := by
-  simp only [decodeExpr, convert_reparse t v c hc, fromCty_toCty t v c hp hc]
+/-- `Props/C16.lean`, `attr_roundtrip` -/
+theorem attr_roundtrip (t : GTy) (v : GVal) (c : Val) (ht : hasTy t v = true) (hp : noPtr t = true)
+    (hc : toCty t v = some c) : decodeExpr t (reparse c) = some v := by
+  simp only [decodeExpr, convert_reparse t v c hc, fromCty_toCty t v c hp ht hc]
 
 end HclModel.Gohcl.Proofs
